@@ -24,6 +24,14 @@ class FakePeer(object):
         self.msg_recv_stat = {'Keepalives': 2}
 
 
+def set_peer(addr):
+    """run this worker process with another configured peer address (e.g. an IPv6 address spelled in upper case)"""
+    global PEER
+    PEER = addr
+    FakeFactory.peer_addr = addr
+    world.PEER = addr
+
+
 PLAIN = ['open_received', 'keepalive_received', 'notification_received', 'route_refresh_received',
          'on_connection_lost', 'on_connection_failed', 'send_open', 'on_update_error']
 _CONF_READY = False
@@ -52,7 +60,7 @@ class LogRun(object):
         self.nplain = 0
         self.exc = 0
         self.refused = False
-        self.msgdir = os.path.join(root, PEER, 'msg')
+        self.msgdir = os.path.join(root, PEER.lower(), 'msg')
 
     # ------------------------------------------------------------ actions
     def restart(self):
@@ -135,7 +143,7 @@ class LogRun(object):
                 with open(os.path.join(self.msgdir, f), 'r+b') as fh:
                     fh.truncate(b + keep)
         try:
-            _, fobj = self.h.peer_files.get(PEER, (None, None))
+            _, fobj = self.h.peer_files.get(PEER.lower(), (None, None))
             if fobj is not None:
                 fobj.close()
         except Exception:
@@ -145,7 +153,7 @@ class LogRun(object):
 
     def stop(self):
         try:
-            _, fobj = self.h.peer_files.get(PEER, (None, None))
+            _, fobj = self.h.peer_files.get(PEER.lower(), (None, None))
             if fobj is not None:
                 fobj.close()
         except Exception:
